@@ -308,3 +308,12 @@ def run_blocks(op):
     result["solver_calls"] = [(c["block"], c["kind"]) for c in solver.calls]
     result["sim_time"] = clock.now - 1000.0
     return result
+
+
+def run_op_seq(ops):
+    """Several ops in ONE process (module state persists between them, SimFS is fresh per op)."""
+    out = []
+    for op in ops:
+        r = run_op(op)
+        out.append(r)
+    return out
